@@ -19,7 +19,7 @@ McStrRank == Tab.rank
 
 INSTANCE KStore WITH Num10 <- McNum10, Num16 <- McNum16, NumC <- McNumC,
                      DecStr <- McDecStr, HexStr <- McHexStr, StrRank <- McStrRank,
-                    NumF <- Tab.numf, NormF <- Tab.normf, FCanon <- Tab.fcanon
+                    NumF <- Tab.numf, NormF <- Tab.normf, FCanon <- Tab.fcanon, HexPfx <- Tab.hexpfx
 
 Progs == Data.progs
 NT    == Len(Progs)
